@@ -114,6 +114,7 @@ pub fn run_bytes(data: &[u8]) {
         strict_loopback: false,
         shallow_clone: s.layout_seed & 1 == 1,
         clone_panics: 0,
+        slot_consume: true,
         allow_consume: false,
         clone_reentrant: false,
         default_ctor: 0,
